@@ -381,6 +381,8 @@ pub fn c01_families(tier: &str) -> Vec<SeqSpec> {
     v.push(spec("F-flush/Z", &["Z", "Zb0"], k3(), { let mut a = a1(); a.extend(reopen_ops(2)); a }, if t { 5 } else { 3 }, READS).flush());
     // a memtable budget of one byte: every write rotates (also an empty memtable)
     v.push(spec("F-fill/M0", &["M0", "M0n"], k3(), { let mut a = a1(); a.extend(reopen_ops(2)); a }, if t { 5 } else { 3 }, READS).lazy());
+    // the largest file and block sizes the option types admit ("no limit")
+    v.push(spec("F-flush/MAX", &["MAX", "MAXn"], k3(), { let mut a = a1(); a.extend(reopen_ops(2)); a }, if t { 5 } else { 3 }, READS).flush());
     if t {
         v.push(spec("F-fill/M2", &["M2"], k3(), a1(), 6, READS).bgfirst());
     }
